@@ -60,9 +60,13 @@ type params struct {
 	Depth   int  // sequential dials by the main thread
 	Threads int  // 0: sequential histories; 2: concurrent dialling threads, then `Depth` sequential dials
 	Yield   bool // shuffle yields between swaps
+	CT      int  // >0: connect-to scenario instead: CT replacement addresses, `Threads` threads dialling the mapped address `Depth` times each
 }
 
 func (p params) name() string {
+	if p.CT > 0 {
+		return fmt.Sprintf("connect-to,replacements=%d,threads=%d,dials-each=%d", p.CT, p.Threads, p.Depth)
+	}
 	return fmt.Sprintf("set=%s,depth=%d,threads=%d,yield=%v", p.Set, p.Depth, p.Threads, p.Yield)
 }
 
@@ -123,8 +127,55 @@ func (w *world) checkDial(who string, got []string) {
 	}
 }
 
+// mainCT: concurrent dials to one mapped address must still rotate evenly over its replacements.
+func (w *world) mainCT() {
+	p := w.p
+	vsched.SpawnPoints = false
+	repl := []string{"1.1.1.1:81", "2.2.2.2:82", "3.3.3.3:83"}[:p.CT]
+	w.dials = make([][]string, 1)
+	tr := &http.Transport{DialContext: func(ctx context.Context, network, addr string) (net.Conn, error) {
+		w.dials[0] = append(w.dials[0], addr)
+		return fakeConn{}, nil
+	}}
+	vegeta.NewAttacker(vegeta.Client(&http.Client{Transport: tr}), vegeta.ConnectTo(map[string][]string{"mapped.test:80": repl}))
+	done := make(chan int)
+	for t := 0; t < p.Threads; t++ {
+		vsched.GoEnv(func() {
+			for k := 0; k < p.Depth; k++ {
+				tr.DialContext(context.Background(), "tcp", "mapped.test:80")
+			}
+			vsched.Send(done, 1)
+		})
+	}
+	for t := 0; t < p.Threads; t++ {
+		vsched.Recv(done)
+	}
+	cnt := map[string]int{}
+	for _, a := range w.dials[0] {
+		cnt[a]++
+	}
+	lo, hi := 1<<30, 0
+	for _, r := range repl {
+		if cnt[r] < lo {
+			lo = cnt[r]
+		}
+		if cnt[r] > hi {
+			hi = cnt[r]
+		}
+	}
+	if len(w.dials[0]) != p.Threads*p.Depth {
+		w.bad = fmt.Sprintf("%d dials reached the base dialer, want %d", len(w.dials[0]), p.Threads*p.Depth)
+	} else if hi-lo > 1 {
+		w.bad = fmt.Sprintf("connect-to rotation uneven under concurrent dials: %d dials over %v went %v", len(w.dials[0]), repl, w.dials[0])
+	}
+}
+
 func (w *world) main() {
 	p := w.p
+	if p.CT > 0 {
+		w.mainCT()
+		return
+	}
 	vrand.YieldInShuffle = p.Yield
 	vsched.SpawnPoints = p.Threads > 0 // concurrent scenarios: a dial can be preempted right before it spawns its per-family dials
 	nthreads := p.Threads + 1
@@ -181,6 +232,9 @@ func (w *world) end(s *vsched.Sched, r *vsched.Result) (string, string) {
 	if w.bad != "" {
 		return w.bad, "bad"
 	}
+	if w.p.CT > 0 {
+		return "", fmt.Sprint(w.dials)
+	}
 	host := w.p.Set + ".test."
 	if a, b := dnsmem.Queries(host, "A"), dnsmem.Queries(host, "AAAA"); a > 1 || b > 1 {
 		return fmt.Sprintf("the name was resolved %d/%d times (A/AAAA) although caching never expires", a, b), "dns"
@@ -198,6 +252,9 @@ func scenario(p params) vsched.Scenario {
 		},
 		After: func() []string {
 			var bad []string
+			if p.CT > 0 {
+				return nil
+			}
 			want := sets[p.Set]
 			keys := make([]uint64, 0, len(ag.next))
 			for k := range ag.next {
@@ -263,6 +320,9 @@ func plans() []plan {
 			ps = append(ps, plan{params{Set: s, Depth: 1, Threads: 2, Yield: false}, b})
 		}
 	}
+	// connect-to under concurrent dials
+	ps = append(ps, plan{params{CT: 2, Threads: 2, Depth: 1}, -1}, plan{params{CT: 2, Threads: 2, Depth: 2}, -1},
+		plan{params{CT: 3, Threads: 3, Depth: 1}, -1}, plan{params{CT: 3, Threads: 2, Depth: 3}, ev.Pick(3, -1)})
 	return ps
 }
 
@@ -334,6 +394,9 @@ func TestC18(t *testing.T) {
 				kind = "concurrent"
 			}
 			key := "dns:" + kind + ":" + classify(v.Message)
+			if pl[i].p.CT > 0 {
+				key = "connect-to:concurrent:" + classify(v.Message)
+			}
 			R.Violation(key, map[string]any{"scenario": st.Scenario, "message": v.Message, "choices": v.Choices, "trace": v.Trace, "preemptions": v.Preempt})
 		}
 	}
@@ -353,6 +416,8 @@ func classify(msg string) string {
 		return "not exactly one address per family"
 	case strings.Contains(msg, "was resolved"):
 		return "resolved more than once"
+	case strings.Contains(msg, "connect-to rotation uneven"):
+		return "connect-to rotation uneven"
 	}
 	return strings.Map(func(r rune) rune {
 		if r >= '0' && r <= '9' {
